@@ -2,8 +2,9 @@
 S for C15 — what RFC 8613 §7.4 / §8.2 / Appendix B.1 and the property text require of a recipient of protected
 requests and of a sender, written without reference to libcoap's code.  Core Lean only.
 
-The recipient specification is a *monitor*: it keeps the set of Partial IVs accepted so far and says, for the next
-request, which outcomes are allowed.  It never looks at a window bitmap.
+The recipient specification is a *monitor*: it keeps the set of Partial IVs accepted so far (in requests, and in
+responses of the same peer) and says, for the next message, which outcomes are allowed.  It never looks at a window
+bitmap.
 
 -- SPEC DECISION D15a: a request that authenticates, was never accepted and is older than the replay window
 --   (highest accepted PIV − PIV ≥ min(window size, 64)) may be accepted or rejected (RFC 8613 §7.4 leaves the window
@@ -17,6 +18,18 @@ request, which outcomes are allowed.  It never looks at a window bitmap.
 -- SPEC DECISION D15d: "state exactly as before" is read on the replay window and sequence state proper
 --   (initial_state, last_seq, sliding_window); the roll-back scratch fields are not part of it, and no later verdict
 --   depends on them (theorem `forgery_invisible`).
+-- SPEC DECISION D15e: an endpoint that is client and server on one security context also receives responses (Observe
+--   notifications) of the same peer that carry their own Partial IV, i.e. the peer's sender sequence number.  The
+--   upper edge of the replay window is the highest PIV accepted from the peer in a request *or* a response.  A request
+--   whose PIV was already used by an accepted response (a conforming sender never produces one) may be accepted or
+--   rejected; it was never accepted as a request, so "at most once" is not concerned.
+-- SPEC DECISION D15f: the property text asks "at most once" of requests only (RFC 8613 §7.4.1 protects notifications
+--   by the per-observation notification number, not by the recipient's window): an authentic response whose PIV was
+--   accepted before, in a request or a response, may be accepted or rejected.  "Later genuine messages are still
+--   accepted" is read for responses too: an authentic response without Partial IV is accepted; one with a PIV never
+--   accepted before that is not older than the window and below 2^40 − 1 is accepted — unless a PIV ≥ 2^40 − 1 has
+--   already been accepted from the peer (sequence number space exhausted, cf. D15b).  A response that fails
+--   authentication is never accepted and, like a forged request, leaves the state untouched.
 -/
 namespace Coap.ReplaySpec
 
@@ -37,14 +50,34 @@ structure Req where
   echo : Echo
   deriving DecidableEq, Repr
 
-/-- Monitor state: PIVs accepted so far, and whether the window has been synchronised (Appendix B.1.2 exchange done,
-or B.1.2 not in use). -/
+/-- A protected response: does it authenticate, and the Partial IV it carries (if any). -/
+structure Rsp where
+  authentic : Bool
+  piv : Option Nat
+  deriving DecidableEq, Repr
+
+/-- A protected message from the peer. -/
+inductive Msg where
+  | req (q : Req)
+  | rsp (x : Rsp)
+  deriving DecidableEq, Repr
+
+def Msg.authentic : Msg → Bool
+  | .req q => q.authentic
+  | .rsp x => x.authentic
+
+/-- Monitor state: PIVs of the requests accepted so far, PIVs of the accepted responses that carried their own Partial
+IV, and whether the window has been synchronised (Appendix B.1.2 exchange done, or B.1.2 not in use). -/
 structure St where
   accepted : List Nat
+  seen : List Nat
   synced : Bool
   deriving DecidableEq, Repr
 
-def St.start (b12 : Bool) : St := { accepted := [], synced := !b12 }
+def St.start (b12 : Bool) : St := { accepted := [], seen := [], synced := !b12 }
+
+/-- every PIV accepted from the peer so far -/
+def St.all (s : St) : List Nat := s.accepted ++ s.seen
 
 def maxOf : List Nat → Nat
   | [] => 0
@@ -55,28 +88,47 @@ def inWindow (window : Nat) (acc : List Nat) (piv : Nat) : Bool :=
   acc.isEmpty || decide (maxOf acc < piv + min window 64)
 
 /-- The outcomes allowed for the next request. -/
-def allowed (window : Nat) (s : St) (q : Req) : List Out :=
+def allowedReq (window : Nat) (s : St) (q : Req) : List Out :=
   if !q.authentic then [.reject]
   else if !s.synced then
     match q.echo with
     | .none => [.challenge]
     | .bad => [.reject]
-    | .good => if q.piv ≥ SEQ_LIMIT then [.accept, .reject] else [.accept]
+    | .good => if q.piv ≥ SEQ_LIMIT ∨ s.seen.contains q.piv then [.accept, .reject] else [.accept]
   else if s.accepted.contains q.piv then [.reject]
   else if q.piv ≥ SEQ_LIMIT then [.accept, .reject]
-  else if inWindow window s.accepted q.piv then [.accept]
+  else if s.seen.contains q.piv then [.accept, .reject]
+  else if inWindow window s.all q.piv then [.accept]
   else [.accept, .reject]
 
-/-- Monitor update with the outcome that actually happened. -/
-def next (s : St) (q : Req) (o : Out) : St :=
-  match o with
-  | .accept => { accepted := q.piv :: s.accepted, synced := true }
-  | _ => s
+/-- The outcomes allowed for the next response. -/
+def allowedRsp (window : Nat) (s : St) (x : Rsp) : List Out :=
+  if !x.authentic then [.reject]
+  else
+    match x.piv with
+    | none => [.accept]
+    | some p =>
+      if s.all.contains p then [.accept, .reject]
+      else if p ≥ SEQ_LIMIT ∨ maxOf s.all ≥ SEQ_LIMIT then [.accept, .reject]
+      else if inWindow window s.all p then [.accept]
+      else [.accept, .reject]
 
-/-- A trace (requests with the outcome each got) conforms to the specification. -/
-def conforms (window : Nat) : St → List (Req × Out) → Prop
+/-- The outcomes allowed for the next message. -/
+def allowed (window : Nat) (s : St) : Msg → List Out
+  | .req q => allowedReq window s q
+  | .rsp x => allowedRsp window s x
+
+/-- Monitor update with the outcome that actually happened. -/
+def next (s : St) (m : Msg) (o : Out) : St :=
+  match o, m with
+  | .accept, .req q => { s with accepted := q.piv :: s.accepted, synced := true }
+  | .accept, .rsp ⟨_, some p⟩ => { s with seen := p :: s.seen }
+  | _, _ => s
+
+/-- A trace (messages with the outcome each got) conforms to the specification. -/
+def conforms (window : Nat) : St → List (Msg × Out) → Prop
   | _, [] => True
-  | s, (q, o) :: t => o ∈ allowed window s q ∧ conforms window (next s q o) t
+  | s, (m, o) :: t => o ∈ allowed window s m ∧ conforms window (next s m o) t
 
 /-- Sender specification: the Partial IVs put on the wire over the whole life of a security context (all runs) are
 pairwise distinct. -/
